@@ -128,7 +128,7 @@ func buildFilledProject(seed uint64, nsvc int, dir string) (*types.Project, map[
 	p := &types.Project{}
 	f.fill(reflect.ValueOf(p).Elem(), "Project")
 	p.WorkingDir = dir
-	p.Profiles = []string{"prof-a"}
+	p.Profiles = []string{"prof-z", "prof-a"} // (not sorted: nothing says a profile list is)
 	svcs := types.Services{}
 	var names []string
 	for i := 0; i < nsvc; i++ {
@@ -386,7 +386,25 @@ func c14Apply(p *types.Project, op c14Op) (*types.Project, error, frame) {
 	partition := map[string]bool{"Services": true, "DisabledServices": true}
 	switch op.Op {
 	case "profiles":
-		ps := [][]string{{"*"}, {"prof-a"}, {"prof-b", "prof-off"}, {}, {"prof-z", "prof-b"}}[((arg(0)%5)+5)%5]
+		var ps []string
+		switch v := ((arg(0) % 8) + 8) % 8; v {
+		case 5, 6, 7:
+			// the argument comes from the receiver itself, as callers do: re-apply the active profiles, or
+			// activate one more (the receiver's slice has spare capacity, and is not in any particular order)
+			if len(p.Profiles) > 0 { // (nil and empty stay what they are)
+				p.Profiles = append(make([]string, 0, len(p.Profiles)+4), p.Profiles...)
+			}
+			switch v {
+			case 5:
+				ps = p.Profiles
+			case 6:
+				ps = append(p.Profiles, "prof-b")
+			case 7:
+				ps = append(p.Profiles, "prof-a", "prof-a")
+			}
+		default:
+			ps = [][]string{{"*"}, {"prof-a"}, {"prof-b", "prof-off"}, {}, {"prof-z", "prof-b"}}[v]
+		}
 		q, err := p.WithProfiles(ps)
 		return q, err, frame{project: map[string]bool{"Services": true, "DisabledServices": true, "Profiles": true}, service: map[string]bool{}}
 	case "enable":
